@@ -267,7 +267,9 @@ def run_property(prop, tier='quick', seed=0, jobs=12):
                     crashes.append((o['func'], 'canary proved: contradictory premises'))
                 continue
             if r['kind'] == 'kf-repro':
-                if r['status'] == 'sat' and prop in r['kf'].get('properties', [prop]):
+                # printed unless the region has become unreachable (unsat): a solver that cannot
+                # decide the reproduction query must not hide a listed finding
+                if r['status'] != 'unsat' and prop in r['kf'].get('properties', [prop]):
                     kf = r['kf']
                     line = 'KNOWN-FINDING: property=%s %s' % (prop, kf['text'])
                     if line not in kf_lines:
